@@ -110,4 +110,12 @@ def mutexes : List (String × String) := [("MutexWithLock", "sync"), ("MutexWith
 def subscribeWrapper : List String :=
   ["newSubscriber(s.mode)", "try", "add(subscribe(ctx,sub))", "catch", "error(observable)", "unsubscribe", "return sub"]
 
+/-- observable.go `CollectWithContext`: gather values, store the terminal's error and context, return
+    when `Wait` returns — unconditionally (what `CutIn.collect` and `kernel_wait_returns_when_done`
+    together describe) -/
+def collectWrapper : List String :=
+  ["values := empty", "var lastCtx", "var err",
+   "sub := subscribe(ctx, observer(append value; store error and ctx; store ctx))", "wait",
+   "return values, lastCtx, err"]
+
 end Ro.Kernel.Expected
